@@ -370,6 +370,9 @@ pub fn gen_model(r: &mut SmallRng, p: &Profile) -> Model {
 /// Input-class labels, computed from the case itself.
 pub fn classes(m: &Model) -> Vec<String> {
     let mut c = std::collections::BTreeSet::new();
+    if m.vars.len() > 400 {
+        let _ = c.insert("shape.deep_chain".to_string());
+    }
     for v in &m.vars {
         if v.kind == VarKind::Sparse {
             let _ = c.insert("dom.sparse".to_string());
@@ -558,6 +561,152 @@ pub fn gen_c09(r: &mut SmallRng, kind: &str) -> (Model, &'static str) {
 /// C02 / C07: models near the phase transition that produce conflicts.
 pub fn gen_hard(r: &mut SmallRng) -> Model {
     gen_hard_bounded(r, 60_000.0)
+}
+
+/// Deep implication chain: 0-1 variables x_0 <= x_1 <= ... <= x_{n-1} (n > 500, posted as binary
+/// inequalities or as clauses), a few free 0-1 variables y, and random clauses over the y's and chain
+/// variables planted at distances 495..=505 from each other. One decision fixes a long stretch of the
+/// chain through n single-step reasons, so conflict analysis and recursive nogood minimisation walk
+/// implication paths around their depth limit (500). The reference enumerator handles these models
+/// (it checks x_i <= x_{i+1} as soon as both are assigned: O(n^2) nodes).
+pub fn gen_deep_chain(r: &mut SmallRng) -> Model {
+    let a: usize = r.gen_range(0..12);
+    let n: usize = a + 507 + r.gen_range(0..24);
+    let ny: usize = r.gen_range(4..=8);
+    let mut m = Model::default();
+    for _ in 0..n + ny {
+        m.vars.push(Var { dom: vec![0, 1], kind: VarKind::Bool });
+    }
+    let style = r.gen_range(0..3);
+    for i in 0..n - 1 {
+        let as_clause = match style {
+            0 => false,
+            1 => true,
+            _ => r.gen_bool(0.5),
+        };
+        if as_clause {
+            m.cons.push((Con::Clause(vec![(i, false), (i + 1, true)]), Reif::Plain));
+        } else {
+            m.cons.push((Con::BinLe(View::plain(i), View::plain(i + 1)), Reif::Plain));
+        }
+    }
+    // planted chain positions: a, and a + d for several d around the depth limit, plus a few others
+    let mut planted: Vec<usize> = vec![a];
+    let d0 = r.gen_range(497..=501usize);
+    planted.push(a + d0);
+    for d in 495..=505usize {
+        if d != d0 && r.gen_bool(0.2) {
+            planted.push(a + d);
+        }
+    }
+    let npairs = planted.len() - 1;
+    for _ in 0..3 {
+        planted.push(r.gen_range(0..n));
+    }
+    let ys: Vec<usize> = (n..n + ny).collect();
+    let ncl = r.gen_range(ny * 2..=ny * 5);
+    let neg_p = [0.3, 0.5, 0.7][r.gen_range(0..3)];
+    for _ in 0..ncl {
+        let mut lits: Vec<Lit> = vec![];
+        for _ in 0..r.gen_range(2..=3) {
+            lits.push((ys[r.gen_range(0..ny)], r.gen_bool(0.5)));
+        }
+        if r.gen_bool(0.4) {
+            // both ends of a planted pair with the same polarity: the learned nogood then contains
+            // two chain predicates of which one is implied by the other through `d` reason steps
+            let hi = planted[1 + r.gen_range(0..npairs)];
+            let pol = !r.gen_bool(neg_p);
+            if r.gen_bool(0.5) {
+                lits.push((a, pol));
+                lits.push((hi, pol));
+            } else {
+                lits.push((hi, pol));
+                lits.push((a, pol));
+            }
+        } else {
+            for _ in 0..r.gen_range(0..=2) {
+                lits.push((planted[r.gen_range(0..planted.len())], !r.gen_bool(neg_p)));
+            }
+        }
+        if r.gen_range(0..5) == 0 {
+            let w: Vec<i64> = lits.iter().map(|_| r.gen_range(1..3)).collect();
+            let rhs = (w.iter().sum::<i64>() - 1).max(0);
+            m.cons.push((Con::BoolLe(w, lits, rhs), Reif::Plain));
+        } else {
+            m.cons.push((Con::Clause(lits), Reif::Plain));
+        }
+    }
+    // an integer that counts some of the 0-1 variables: the objective of the optimisation runs
+    let mut lits: Vec<Lit> = vec![];
+    for &y in &ys {
+        if r.gen_bool(0.7) {
+            lits.push((y, r.gen_bool(0.7)));
+        }
+    }
+    for _ in 0..2 {
+        lits.push((planted[r.gen_range(0..planted.len())], r.gen_bool(0.5)));
+    }
+    let w: Vec<i64> = lits.iter().map(|_| r.gen_range(1..=2)).collect();
+    m.vars.push(Var { dom: (0..=w.iter().sum::<i64>()).collect(), kind: VarKind::Interval });
+    let z = m.vars.len() - 1;
+    m.cons.push((Con::BoolEq(w, lits, z), Reif::Plain));
+    m
+}
+
+/// C17: cumulative with several disjoint compulsory parts ("profiles") built from (nearly) fixed
+/// tasks and one or two wide tasks that fit beside none of them, so that a single propagation pass
+/// cuts the wide task at several profiles (holes or bound jumps across profiles).
+pub fn gen_cumul_profiles(r: &mut SmallRng) -> Model {
+    let mut m = Model::default();
+    let cap: i64 = r.gen_range(1..=3);
+    let nprof = r.gen_range(2..=3);
+    let mut starts: Vec<View> = vec![];
+    let mut durs: Vec<i64> = vec![];
+    let mut reqs: Vec<i64> = vec![];
+    let mut t = r.gen_range(0..3i64);
+    for _ in 0..nprof {
+        let len = r.gen_range(1..=2i64);
+        let mut left = cap;
+        let ntask = r.gen_range(1..=2);
+        for k in 0..ntask {
+            let use_ = if k + 1 == ntask { left.max(1).min(cap) } else { r.gen_range(1..=left.max(1)) };
+            left -= use_;
+            // fixed, or with slack smaller than the duration (a compulsory part remains)
+            let slack = if len > 1 && r.gen_range(0..3) == 0 { 1 } else { 0 };
+            m.vars.push(Var { dom: (t..=t + slack).collect(), kind: VarKind::Interval });
+            starts.push(View::plain(m.vars.len() - 1));
+            durs.push(len + slack);
+            reqs.push(use_);
+            if left <= 0 {
+                break;
+            }
+        }
+        t += len + 1 + r.gen_range(1..=3i64);
+    }
+    let horizon = t + r.gen_range(0..3);
+    for _ in 0..r.gen_range(1..=2) {
+        m.vars.push(Var { dom: (0..=horizon).collect(), kind: VarKind::Interval });
+        starts.push(View::plain(m.vars.len() - 1));
+        durs.push(r.gen_range(1..=2));
+        reqs.push(r.gen_range(1..=cap));
+    }
+    // option tuple: bias towards holes + sequence generation
+    let mut o = r.gen_range(0..144usize);
+    if r.gen_bool(0.6) {
+        o |= 1; // allow holes
+    }
+    if r.gen_bool(0.6) && (o / 6) & 1 == 0 {
+        o += 6; // generate sequences
+    }
+    m.cons.push((Con::Cumul(starts, durs, reqs, cap, o % 144), Reif::Plain));
+    m.vars.push(Var { dom: vec![0, 1], kind: VarKind::Bool });
+    for _ in 0..r.gen_range(0..3) {
+        let k = ["bin_le", "bin_lt", "lin_le", "bin_ne", "lin_ne"][r.gen_range(0..5)];
+        if let Some(c) = gen_con(r, &m, k, false) {
+            m.cons.push((c, Reif::Plain));
+        }
+    }
+    m
 }
 
 pub fn gen_hard_bounded(r: &mut SmallRng, max_space: f64) -> Model {
